@@ -203,6 +203,17 @@ class QuickPartitioner(BasePass):
 
                 # Track the barrier to restore it in partitioned circuit
                 pending_bins.append(BarrierBin(point, location, circuit))
+
+                # Block qudits to prevent circular dependencies through
+                # the barrier, as is done for ordinary operations
+                for active_bin in active_bins:
+                    if active_bin is None:
+                        continue
+                    indirect = active_bin.blocked_qudits.union(
+                        active_bin.qudits,
+                    ).intersection(location)
+                    if len(indirect) != 0:
+                        active_bin.blocked_qudits.update(location)
                 continue
 
             # Get all the currently active bins that can have op added to them
